@@ -66,6 +66,8 @@ class C01(Property):
     # ------------------------------------------------------------------ generation
     def gen_aftermath(self, world, step, rng):
         """a write of a list failed: the list is still in the caller's hands - written somewhere else and loaded back"""
+        if rng.chance(0.5):
+            yield from Property.gen_aftermath(self, world, step, rng)      # the plain retry
         if step["op"] == "write" and step.get("h") in world.session(step["sess"]):
             other = rng.pick([p for p in PATHS if p != step["path"]] or PATHS)
             world.model["n"] += 1
